@@ -36,10 +36,7 @@ Proof.
   - unfold names. intros a b a' Ha Hb. now apply (nodup_inj t a b a').
 Qed.
 
-(* what parse_sentence reads of a cached vector: result id and head flag; what it would read of the grammar's answer
-   on categories: result category and head flag *)
-Definition id_view (e : mentry) : list (nat * bool) := map (fun p => (fst p, head_is_left (snd p))) e.
-Definition cat_view (rs : list cres) : list (cat * bool) := map (fun r => (rcat r, head_is_left r)) rs.
+(* id_view / cat_view (what parse_sentence reads of a cached vector / of the grammar's answer) are defined in GlueMemo.v *)
 
 Section View.
 Variable gbin : cat -> cat -> list cres.
